@@ -271,6 +271,26 @@ theorem C07_configuration_idempotent (nm : Naming) (a a' : Attr) (es : List Entr
     ∃ a'', applyConfig nm a' es = .ok a'' ∧ (∀ x, a''.prio x = a'.prio x ∧ a''.seq x = a'.seq x) :=
   GM.applyConfig_idempotent nm a a' es h
 
+/-- C07, refused configurations: one malformed entry anywhere (a priority that is not an int, an entry that is not a
+    mapping) refuses the whole configuration, and a refused configuration — unknown alias, ambiguity or malformed entry —
+    leaves every attribute, hence every compound priority, exactly as it was (`reconfigure` = the state after the call,
+    returned or raised).  This is the law the pinned tree broke (entries before the malformed one were applied, the table
+    not recomputed) and `fix: a refused configuration leaves the DAG untouched` restored. -/
+theorem C07_refused_configuration_changes_nothing (g : GM.G) (nm : Naming) (a : Attr) (res : List RawEntry) :
+    (∀ r ∈ res, r.wellFormed = false → ∃ e, applyRaw nm a res = .error e) ∧
+    (∀ e, applyRaw nm a res = .error e →
+        reconfigure nm a res = a ∧ ∀ x, cpAll g (reconfigure nm a res).prio x = cpAll g a.prio x) :=
+  ⟨fun r hr hbad => applyRaw_malformed_refused nm a res r hr hbad,
+   fun e h => ⟨reconfigure_refused nm a res e h, reconfigure_refused_cp g nm a res e h⟩⟩
+
+/-- C07: giving a configuration again after a refusal (say, with the malformed entry corrected) is decided from the
+    untouched state, exactly as if the refused attempt had never been made; an accepted configuration is the law above. -/
+theorem C07_retry_after_refusal (nm : Naming) (a : Attr) (res res' : List RawEntry) (e : RawErr)
+    (h : applyRaw nm a res = .error e) :
+    applyRaw nm (reconfigure nm a res) res' = applyRaw nm a res' ∧
+    (∀ a', applyRaw nm a res' = .ok a' → applyConfig nm a (res'.map (·.entry)) = .ok a') :=
+  ⟨retry_after_refusal nm a res e h res', fun a' h' => (reconfigure_accepted nm a a' res' h').2⟩
+
 -- non-vacuity: two nodes carry the tag "g"; an entry for "g" that states only the priority
 example : ((applyConfig { n := 3, idOf := fun i => s!"n{i}", tagsOf := fun i => if i < 2 then ["g"] else [] }
       ⟨fun _ => 1, fun i => i == 1⟩ [⟨.name "g", some 9, none⟩]).toOption.map
